@@ -78,6 +78,10 @@ def _nest(k, u):
     return "", "((%di32, %di32), %di32)" % (1200 + k, 1300 + k, 1400 + k), "((%d, %d), %d)" % (1200 + k, 1300 + k, 1400 + k), [str(1200 + k), str(1300 + k), str(1400 + k)]
 
 
+def _sink(k, u):
+    return "let mut __v%s: ::std::vec::Vec<&str> = ::std::vec::Vec::new();" % u, "&mut __v%s" % u, "[]", None
+
+
 def _refi(k, u):
     return "let __r%s = %di32;" % (u, 900 + k), "&__r%s" % u, str(900 + k), [str(900 + k)]
 
@@ -97,6 +101,7 @@ TYPES = {
     "into": Ty("into", "impl ::core::convert::Into<i64> + ::core::fmt::Debug + ::core::marker::Send", _into, ptr="i32"),
     "dynref": Ty("dynref", "&(dyn ::core::fmt::Debug + ::core::marker::Sync)", _dynref),
     "slice": Ty("slice", "&[u8]", _slice),
+    "sink": Ty("sink", "&mut ::std::vec::Vec<&str>", _sink),   # used with the deps lifetime: an invariant position
     "nest": Ty("nest", "((i32, i32), i32)", _nest, pats=[("(({0}, {1}), _)", 2, [0, 1]), ("(({0}, _), {1})", 2, [0, 2]), ("(_, {0})", 1, [2]), ("((_, {0}), ..)", 1, [1])]),
     "N": Ty("N", "N", _n, pats=[("N({0})", 1, [0]), ("N(_)", 0, [])], needs=("N",)),
     "N2": Ty("N2", "N2", _n2, pats=[("N2({0}, _)", 1, [0]), ("N2({0}, {1})", 2, [0, 1]), ("N2(_, {0})", 1, [1])], needs=("N2",)),
